@@ -30,7 +30,7 @@ DIR_SZ = 0x20
 DATA_FAT_OFF = 0x2B1000
 FIRST_CLUSTER = 2
 FREQS = {0: 48000, 1: 44100, 2: 24000, 3: 22050, 4: 30000, 5: 15000}
-POLICIES = ("contiguous", "random", "descending", "head_highest", "ascending")
+POLICIES = ("contiguous", "random", "descending", "head_highest", "ascending", "inner_permuted")
 POISON_FREE = 0xDD
 POISON_SLACK = 0xEE
 POISON_TOP = 0xAB
@@ -81,6 +81,10 @@ def build(model: dict) -> Tuple[bytes, RolandLayout]:
     need = 0
     plans = []
     for sm in samples:
+        if "alias_of" in sm:
+            # a second sample living in the *same* cluster chain, further in (its own leading-cluster offset)
+            plans.append(None)
+            continue
         k = max(1, -(-(2 * sm["n"]) // CL))
         top = sm.get("cluster_top", 0)
         plans.append((k, top))
@@ -115,6 +119,17 @@ def build(model: dict) -> Tuple[bytes, RolandLayout]:
                     break
             if ch is None:
                 ch = free[:k]
+        elif policy == "inner_permuted":
+            ch = None
+            for a in range(len(free) - k + 1):
+                if free[a + k - 1] - free[a] == k - 1:
+                    ch = free[a:a + k]
+                    break
+            if ch is None:
+                ch = free[:k]
+            inner = ch[1:-1]
+            rng.shuffle(inner)
+            ch = ch[:1] + inner + (ch[-1:] if k > 1 else [])
         elif policy == "ascending":
             ch = sorted(rng.sample(free, k))
         elif policy == "descending":
@@ -134,20 +149,30 @@ def build(model: dict) -> Tuple[bytes, RolandLayout]:
 
     # --- samples -----------------------------------------------------------
     for i, sm in enumerate(samples):
-        k, top = plans[i]
-        rng = random.Random(sm.get("seed", 0))
-        ch = alloc(k + top, sm.get("policy", "contiguous"), rng)
-        for a, c in zip(ch, ch[1:]):
-            fat[a] = c
-        fat[ch[-1]] = sm.get("end_marker", 0xFFFF)
-        data = pcm_bytes(sm["key"], sm["n"])
-        for j, c in enumerate(ch):
-            base = DATA_FAT_OFF + c * CL
-            if j < top:
-                put(base, bytes([POISON_TOP]) * CL)
-            else:
-                chunk = data[(j - top) * CL:(j - top + 1) * CL]
-                put(base, chunk + bytes([POISON_SLACK]) * (CL - len(chunk)))
+        if plans[i] is None:
+            j0 = sm["alias_of"]
+            if not 0 <= j0 < i or plans[j0] is None:
+                raise ScenarioInvalid("alias must follow its owner")
+            ch = lay.samples[j0].chain
+            top = samples[j0].get("cluster_top", 0) + sm["alias_skip"]
+            if top >= len(ch) or sm.get("key_offset", 0) != sm["alias_skip"] * (CL // 2) or sm["key"] != samples[j0]["key"] \
+                    or sm["n"] != samples[j0]["n"] - sm["key_offset"] or sm["n"] < 1:
+                raise ScenarioInvalid("inconsistent alias")
+        else:
+            k, top = plans[i]
+            rng = random.Random(sm.get("seed", 0))
+            ch = alloc(k + top, sm.get("policy", "contiguous"), rng)
+            for a, c in zip(ch, ch[1:]):
+                fat[a] = c
+            fat[ch[-1]] = sm.get("end_marker", 0xFFFF)
+            data = pcm_bytes(sm["key"], sm["n"])
+            for j, c in enumerate(ch):
+                base = DATA_FAT_OFF + c * CL
+                if j < top:
+                    put(base, bytes([POISON_TOP]) * CL)
+                else:
+                    chunk = data[(j - top) * CL:(j - top + 1) * CL]
+                    put(base, chunk + bytes([POISON_SLACK]) * (CL - len(chunk)))
         dir_off = SAMP_DIR + DIR_SZ * i
         par_off = SAMP_PAR + SAMP_PSZ * i
         put(dir_off, direntry(sm["name"], sm.get("ftype", 0x44), sm.get("fat_entry", ch[0]), len(ch)))
@@ -237,7 +262,8 @@ def end_point(sm: dict) -> int:
 def expected_pcm(sm: dict) -> bytes:
     start = sm["points"][0][0]
     end = end_point(sm)
-    data = pcm_bytes(sm["key"], sm["n"])
+    off = sm.get("key_offset", 0)
+    data = pcm_bytes(sm["key"], off + sm["n"])[2 * off:]
     x = data[2 * start:2 * (end + 1)]
     if sm.get("loop_mode", 2) in (5, 6):
         x = b"".join(x[i:i + 2] for i in range(len(x) - 2, -1, -2))
